@@ -54,5 +54,6 @@ func DialWithTLS(c websocket.DialConfig) (websocket.Conn, error) {
 	if err != nil {
 		return nil, err
 	}
+	wsconn.SetReadLimit(-1)
 	return New(wsconn), nil
 }
